@@ -21,6 +21,15 @@ def isConstStrE : Expr → Bool
   | .const (.str _) => true
   | _ => false
 
+/-- the literal text of a format spec holds no brace.  Inside a format spec CPython (3.12+) does not read
+    `{{` / `}}` as escaped braces, so a spec whose literal text contains a brace (writable only through an
+    escape, `f'{x:\x7b}'`) has no text of the doubled form: such trees are outside the well-formed class
+    (known finding KF-D75: both unparsers double the braces there). -/
+def specNoBrace : List Expr → Bool
+  | [] => true
+  | .const (.str cps) :: vs => cps.all (fun c => c != 123 && c != 125) && specNoBrace vs
+  | _ :: vs => specNoBrace vs
+
 /-- kinds that can be a comprehension target -/
 def targetKind : Expr → Bool
   | .name _ | .tuple _ | .list _ | .attribute .. | .subscript .. => true
@@ -103,7 +112,7 @@ mutual
     | _ :: _ => False
   def wfSpec : Option Expr → Prop
     | none => True
-    | some (.joinedStr vs) => wfParts vs
+    | some (.joinedStr vs) => wfParts vs ∧ specNoBrace vs = true
     | some _ => False
   def wfA : Arguments → Prop
     | .mk po as _ ko kd _ ds => ds.length ≤ (po ++ as).length ∧ kd.length = ko.length ∧ wfL ds ∧ wfOL kd
